@@ -938,7 +938,7 @@ def run(ctx):
                               "" if not o["message"] else ": " + o["message"].split("\n")[0][:100], o["raised_in"],
                               o["cause_type"] or "-", len(lst)),
                           {"part": "errors", "version": case[1], "seed": case[0], "mutation": case[2], "text": case[3],
-                           "observed": o, "class_size": len(lst), "sig": sig})
+                           "observed": {k: x for k, x in o.items() if k != "seconds"}, "sig": sig})
 
     # ---- evidence
     distinct_layout = set()
